@@ -629,6 +629,78 @@ func generateMore(suite string, seed uint64, i int, r *rng, id string, g gp) *Ca
 		}
 		return &Case{ID: id, Op: op, Arg: map[string]any{"rects": rects, "p1": []any{fs(p1.x), fs(p1.y)}, "p2": []any{fs(p2.x), fs(p2.y)},
 			"cls": cls, "timeout_ms": 4000.0}}
+	case "c19-long": // C19: long corridors (8..24 rectangles): convex staircases keep many corners on one side of the funnel at once
+		k := r.rangeIn(8, 24)
+		var rc [][4]float64
+		y := 0.0
+		switch r.intn(3) {
+		case 0, 1: // one side steps in one direction by shrinking (convex chain) or arbitrary amounts; the other side is far away
+			shrinking := r.chance(2, 3)
+			inc := float64(r.rangeIn(30, 60))
+			x := 0.0
+			far := 0.0
+			var xs []float64
+			for j := 0; j < k; j++ {
+				xs = append(xs, x)
+				if shrinking {
+					x += inc
+					if inc > 5 {
+						inc -= float64(r.rangeIn(2, 6))
+					}
+					if inc < 1 {
+						inc = 1
+					}
+				} else {
+					x += float64(r.rangeIn(1, 40))
+				}
+			}
+			far = x + float64(r.rangeIn(50, 300))
+			for j := 0; j < k; j++ {
+				h := float64(r.rangeIn(5, 30))
+				rc = append(rc, [4]float64{xs[j], y, far, y + h})
+				y += h
+			}
+		default: // free stack
+			l, rr := float64(r.intn(40)), 0.0
+			rr = l + float64(r.rangeIn(5, 80))
+			for j := 0; j < k; j++ {
+				h := float64(r.rangeIn(2, 30))
+				if j > 0 {
+					for {
+						nl := l + float64(r.rangeIn(-30, 30))
+						nr := nl + float64(r.rangeIn(5, 80))
+						if nr > nl && math.Min(nr, rr) > math.Max(nl, l) {
+							l, rr = nl, nr
+							break
+						}
+					}
+				}
+				rc = append(rc, [4]float64{l, y, rr, y + h})
+				y += h
+			}
+		}
+		if r.chance(1, 2) { // mirror left/right
+			for j := range rc {
+				rc[j][0], rc[j][2] = -rc[j][2], -rc[j][0]
+			}
+		}
+		if r.chance(1, 2) { // turn upside down
+			n := len(rc)
+			out := make([][4]float64, n)
+			for j := range rc {
+				out[n-1-j] = [4]float64{rc[j][0], y - rc[j][3], rc[j][2], y - rc[j][1]}
+			}
+			rc = out
+		}
+		f, z := rc[0], rc[len(rc)-1]
+		p1 := geom2{f[0] + (f[2]-f[0])*float64(r.rangeIn(1, 31))/32, f[1]}
+		p2 := geom2{z[0] + (z[2]-z[0])*float64(r.rangeIn(1, 31))/32, z[3]}
+		var rects []any
+		for _, x := range rc {
+			rects = append(rects, []any{fs(x[0]), fs(x[1]), fs(x[2]), fs(x[3])})
+		}
+		return &Case{ID: id, Op: "shortest", Arg: map[string]any{"rects": rects, "p1": []any{fs(p1.x), fs(p1.y)}, "p2": []any{fs(p2.x), fs(p2.y)},
+			"cls": "A", "timeout_ms": 4000.0}}
 	case "c20-shape": // C20: corridors at drawing scale (quarter-unit coordinates), shapes in which a piece can leave the union
 		q := func(lo, hi int) float64 { return float64(r.rangeIn(4*lo, 4*hi)) / 4 }
 		var rc [][4]float64 // l, t, r, b
